@@ -221,9 +221,11 @@ def startAll (cfg : Cfg) (s : Sh) : List (List Call) → Sh × List Th
       let r2 := startAll cfg r.1 ps
       (r2.1, r.2 :: r2.2)
 
-def init (cfg : Cfg) (progs : List (List Call)) : Conf :=
-  let r := startAll cfg {} progs
-  { sh := r.1, th := r.2 }
+/-- a batch of threads started on the shared words `s` -/
+def initFrom (cfg : Cfg) (s : Sh) (progs : List (List Call)) : Conf :=
+  { sh := (startAll cfg s progs).1, th := (startAll cfg s progs).2 }
+
+def init (cfg : Cfg) (progs : List (List Call)) : Conf := initFrom cfg {} progs
 
 /-- the notification a thread still owes to the listeners (a CAS it won whose listener call is still ahead) -/
 def Pc.owes : Pc → Option (St × St)
